@@ -134,9 +134,9 @@ def w_partial(ctx, rng, idx, param):
     t = tt.TT(cores)
     ctx.describe({'op': 'ortho_' + side, 'start': s, 'end': e, 'row': rows, 'col': cols, 'ranks': ranks})
     if side == 'left':
-        call('TT.ortho_left', lambda: t.ortho_left(start_index=s, end_index=e), prop=P)
+        call('TT.ortho_left', t.ortho_left, prop=P, start_index=s, end_index=e)
     else:
-        call('TT.ortho_right', lambda: t.ortho_right(start_index=s, end_index=e), prop=P)
+        call('TT.ortho_right', t.ortho_right, prop=P, start_index=s, end_index=e)
 
 
 def finish(ctx):
